@@ -431,6 +431,14 @@ def Num.WF (n : Num) : Prop :=
   (n.int ≠ [] ∨ ∃ f, n.frac = some f ∧ f ≠ []) ∧
   (∀ e s d, n.exp = some (e, s, d) → (e = 'e' ∨ e = 'E') ∧ isSign s ∧ d ≠ [] ∧ ∀ c ∈ d, isDecimal c = true)
 
+/-- `t` reads as a number, optionally followed by white space and a unit: such a text cannot be meant as a
+    text value ("5 mL", "2nd" = 2 with unit "nd").  Everything else — "Running", "2 of 3", "0,98",
+    "1st pass" — is a text value, also when it begins with digits. -/
+def numberLike (t : List Char) : Bool :=
+  match floatMax t with
+  | some k => (t.drop k).all isSpace || (unitTail (t.drop k)).isSome
+  | none => false
+
 /-- value of a condition: a number with an optional unit, or a text -/
 inductive Value where
   | num (n : Num) (unit : Option (List Char × List Char))   -- white space (≥ 1) and unit
@@ -444,8 +452,7 @@ def Value.render : Value → List Char
 def Value.WF : Value → Prop
   | .num n none => n.WF
   | .num n (some (w, u)) => n.WF ∧ w ≠ [] ∧ (∀ c ∈ w, isSpace c = true) ∧ u ≠ [] ∧ ∀ c ∈ u, isUnitChar c = true
-  | .text t => Trimmed t ∧ (∀ c ∈ t, isOpChar c = false) ∧
-      ∀ c ∈ t.head?, (c ≠ '+' ∧ c ≠ '-' ∧ c ≠ '.' ∧ isDecimal c = false)
+  | .text t => Trimmed t ∧ (∀ c ∈ t, isOpChar c = false) ∧ numberLike t = false
 
 /-- `tag op value [unit]` with optional white space around the operator and after the value -/
 structure CondParts where
